@@ -310,6 +310,21 @@ theorem console_asis_leaks :
     (["password".toList], "hunter2".toList) ∈ emitAsIs (wCase .console) ∧ ¬ (emitAsIs (wCase .console)).all pairOK = true := by
   decide
 
+/-- **the replay path is transparent**: a buffered record, replayed through the handler it was logged through (what the
+    source does: `LogBuf.Flags.fixed.keepHandler`, tied by `flush_matches_fixed_flags`), yields exactly the pairs of the
+    unbuffered call — for every handler type, chain, tree and replacer; hence `redacted` / `sensitive_value_never_emitted`
+    hold of what `FlushBuffer` writes -/
+theorem replay_through_own_handler_is_transparent (c : Case) :
+    emitReplayed Rivaas.LogBuf.Flags.fixed.keepHandler c = emit c := by
+  cases hh : c.h <;> simp [emitReplayed, emitVia, emit, Rivaas.LogBuf.Flags.fixed, hh]
+
+/-- … and that is the flag's doing: replayed through the root handler (as shipped) the attribute bound with `With` is gone -/
+theorem replay_through_root_handler_drops_bound_attrs :
+    (["token".toList], redactedVal) ∈ emitReplayed true (wCase .json) ∧
+    (["token".toList], redactedVal) ∉ emitReplayed false (wCase .json) ∧
+    emitReplayed false (wCase .console) ≠ emit (wCase .console) := by
+  decide
+
 /-- K20d, as shipped: a record logged through `With(...)` while buffering loses the bound attribute -/
 theorem buffered_asis_drops_bound_attrs :
     (["token".toList], redactedVal) ∈ emitAsIs (wCase .json) ∧
